@@ -61,6 +61,15 @@ func (payload *CreateCampaignPayload) Validate(blockTime uint64) error {
 		return sdkerrors.Wrapf(sdkerrtypes.ErrInvalidRequest, "unsupported reward amount type")
 	}
 
+	// a negative component would be skipped by the distribution but still be netted against the positive
+	// component in the campaign pool accounting, so the pool would pay out more than it books as spent.
+	if (!payload.RewardAmount.MainAccountAmount.IsNil() && payload.RewardAmount.MainAccountAmount.IsNegative()) ||
+		(!payload.RewardAmount.SubaccountAmount.IsNil() && payload.RewardAmount.SubaccountAmount.IsNegative()) ||
+		(!payload.RewardAmount.MainAccountPercentage.IsNil() && payload.RewardAmount.MainAccountPercentage.IsNegative()) ||
+		(!payload.RewardAmount.SubaccountPercentage.IsNil() && payload.RewardAmount.SubaccountPercentage.IsNegative()) {
+		return sdkerrors.Wrapf(sdkerrtypes.ErrInvalidRequest, "reward amounts and percentages can not be negative")
+	}
+
 	if ((!payload.RewardAmount.SubaccountAmount.IsNil() &&
 		payload.RewardAmount.SubaccountAmount.GT(sdkmath.ZeroInt())) ||
 		(!payload.RewardAmount.SubaccountPercentage.IsNil() &&
